@@ -6,58 +6,11 @@
    parameter [call] (open recursion) and loops use an explicit iteration bound, both fed from the fuel of
    [run_fun] at the end of the file.  Fuel is consumed ONLY by loop iterations and program-function calls,
    so an instrumented program and its original consume identical fuel. *)
-From Coq Require Import String List ZArith Bool Arith.
-From DV Require Import Base.Util Hooks.Names Engine.Dispatch Py.Syntax.
+From Coq Require Import String List ZArith Bool Arith Setoid Morphisms.
+From DV Require Import Base.Util Hooks.Names Engine.Dispatch Py.Syntax Py.Ops Py.Instr.
 Import ListNotations.
 Open Scope string_scope.
 Open Scope list_scope.
-
-(* ------------------------------------------------------------------ names and codes shared with the instrumenter *)
-Definition unop_cls (o : unop) : string :=
-  match o with UInvert => "BitInvert" | UMinus => "Minus" | UNot => "Not" | UPlus => "Plus" end.
-Definition binop_cls (o : binop) : string :=
-  match o with
-  | BAdd => "Add" | BBitAnd => "BitAnd" | BBitOr => "BitOr" | BBitXor => "BitXor" | BDivide => "Divide"
-  | BFloorDivide => "FloorDivide" | BLeftShift => "LeftShift" | BMatrixMultiply => "MatrixMultiply"
-  | BModulo => "Modulo" | BMultiply => "Multiply" | BPower => "Power" | BRightShift => "RightShift" | BSubtract => "Subtract"
-  end.
-Definition boolop_cls (o : boolop) : string := match o with BAnd => "And" | BOr => "Or" end.
-Definition cmpop_cls (o : cmpop) : string :=
-  match o with
-  | CEqual => "Equal" | CGreaterThan => "GreaterThan" | CGreaterThanEqual => "GreaterThanEqual" | CIn => "In" | CIs => "Is"
-  | CLessThan => "LessThan" | CLessThanEqual => "LessThanEqual" | CNotEqual => "NotEqual" | CIsNot => "IsNot" | CNotIn => "NotIn"
-  end.
-
-(* the integer codes of the two hand-maintained tables (CodeInstrumenter.py <-> runtime.py); checked against
-   the regenerated Gen.OpTables in Py/Codes.v *)
-Definition unop_code (o : unop) : Z := match o with UInvert => 0 | UMinus => 1 | UNot => 2 | UPlus => 3 end.
-Definition binop_code (o : binop) : Z :=
-  match o with
-  | BAdd => 0 | BBitAnd => 1 | BBitOr => 2 | BBitXor => 3 | BDivide => 4 | BFloorDivide => 5 | BLeftShift => 6
-  | BMatrixMultiply => 7 | BModulo => 8 | BMultiply => 9 | BPower => 10 | BRightShift => 11 | BSubtract => 12
-  end.
-Definition boolop_code (o : boolop) : Z := match o with BAnd => 13 | BOr => 14 end.
-Definition cmpop_code (o : cmpop) : Z :=
-  match o with
-  | CEqual => 0 | CGreaterThan => 1 | CGreaterThanEqual => 2 | CIn => 3 | CIs => 4 | CLessThan => 5
-  | CLessThanEqual => 6 | CNotEqual => 7 | CIsNot => 8 | CNotIn => 9
-  end.
-
-Definition all_unops := [UInvert; UMinus; UNot; UPlus].
-Definition all_binops := [BAdd; BBitAnd; BBitOr; BBitXor; BDivide; BFloorDivide; BLeftShift; BMatrixMultiply; BModulo; BMultiply; BPower; BRightShift; BSubtract].
-Definition all_boolops := [BAnd; BOr].
-Definition all_cmpops := [CEqual; CGreaterThan; CGreaterThanEqual; CIn; CIs; CLessThan; CLessThanEqual; CNotEqual; CIsNot; CNotIn].
-
-Definition decode {A} (code : A -> Z) (all : list A) (z : Z) : option A := find (fun o => Z.eqb (code o) z) all.
-
-(* the expressions CPython compiles into jumps when they stand in a boolean context *)
-Definition jumpy (e : expr) : bool :=
-  match e with
-  | EBool _ _ _ _ => true
-  | EUn _ UNot _ => true
-  | EIfExp _ _ _ _ => true
-  | _ => false
-  end.
 
 Section Sem.
   (* ---------------------------------------------------------------- the uninterpreted data semantics *)
@@ -233,6 +186,41 @@ Section Sem.
              | _ => (Ok r, s')
              end.
   Definition reraise {A} (r : res A) : M A := fun s => (r, s).
+
+  (* ================================================================ equational toolkit *)
+  Section Toolkit.
+    Definition meq {A} (m1 m2 : M A) : Prop := forall s, m1 s = m2 s.
+
+    Lemma meq_refl {A} (m : M A) : meq m m. Proof. intros s; reflexivity. Qed.
+    Lemma meq_sym {A} (m n : M A) : meq m n -> meq n m. Proof. intros H s; symmetry; apply H. Qed.
+    Lemma meq_trans {A} (m n o : M A) : meq m n -> meq n o -> meq m o.
+    Proof. intros H1 H2 s; rewrite H1; apply H2. Qed.
+
+    Lemma bind_cong {A B} (m m' : M A) (k k' : A -> M B) :
+      meq m m' -> (forall a, meq (k a) (k' a)) -> meq (bind m k) (bind m' k').
+    Proof. intros H1 H2 s. unfold bind. rewrite H1. destruct (m' s) as [r s']. destruct r; try reflexivity. apply H2. Qed.
+
+    Lemma bind_assoc {A B C} (m : M A) (k : A -> M B) (h : B -> M C) :
+      meq (bind (bind m k) h) (bind m (fun a => bind (k a) h)).
+    Proof. intros s. unfold bind. destruct (m s) as [r s']. destruct r; reflexivity. Qed.
+
+    Lemma bind_ret_l {A B} (a : A) (k : A -> M B) : meq (bind (ret a) k) (k a).
+    Proof. intros s; reflexivity. Qed.
+
+    Lemma bind_ret_r {A} (m : M A) : meq (bind m ret) m.
+    Proof. intros s. unfold bind, ret. destruct (m s) as [r s']. destruct r; reflexivity. Qed.
+
+    Lemma catch_cong {A} (m m' : M A) : meq m m' -> meq (catch m) (catch m').
+    Proof. intros H s. unfold catch. rewrite H. reflexivity. Qed.
+
+    Global Instance meq_equiv {A} : Equivalence (@meq A).
+    Proof. split; [exact meq_refl|exact meq_sym|exact meq_trans]. Qed.
+    Global Instance bind_proper {A B} : Proper (meq ==> pointwise_relation A meq ==> meq) (@bind A B).
+    Proof. intros m m' Hm k k' Hk. apply bind_cong; [exact Hm|exact Hk]. Qed.
+    Global Instance catch_proper {A} : Proper (meq ==> meq) (@catch A).
+    Proof. intros m m' Hm. apply catch_cong. exact Hm. Qed.
+  End Toolkit.
+
 
   (* ---------------------------------------------------------------- runtime entry points (runtime.py) *)
   Definition RE (n : nid) : M unit := ev "runtime_event" n [] ;; ret tt.
@@ -778,7 +766,7 @@ Section Sem.
       else ret (r, negb t).
 
     Definition reval_body (rv_ : rctx -> expr -> M val) (rvt_ : rctx -> expr -> M (val * bool)) (rvl_ : rctx -> exprs -> M (list val))
-               (rvc_ : rctx -> nid -> bool -> val -> val -> cmps -> M val) (c : rctx) (e : expr) : M val :=
+               (rvc_ : rctx -> nid -> bool -> bool -> val -> val -> cmps -> M val) (c : rctx) (e : expr) : M val :=
       match e with
       | EConst n k =>
         let v := p_const k in
@@ -845,8 +833,7 @@ Section Sem.
       | ECmp n a r =>
         let on := cmps_cov r in
         do l <- rv_ c a;
-        announce on false n ;;
-        rvc_ c n on l l r
+        rvc_ c n on true l l r
       | EIfExp n t a b =>
         let on := cov "enter_if" || cov "exit_if" in
         if on then
@@ -967,11 +954,13 @@ Section Sem.
       | Enil => ret []
       | Econs e r => do v <- reval c e; do vs <- reval_list c r; ret (v :: vs)
       end
-    with reval_cmps (c : rctx) (n : nid) (on : bool) (first l : val) (r : cmps) : M val :=
+    with reval_cmps (c : rctx) (n : nid) (on ann : bool) (first l : val) (r : cmps) : M val :=
       match r with
       | Cnil => ret l
       | Ccons o e rest =>
         do rv <- reval c e;
+        (* the evaluation is announced once the operands of the first link are there *)
+        announce (on && ann) false n ;;
         do v <- prim (p_cmp o l rv);
         do v' <- (if on then
                     ev "operation" n [AS (cmpop_cls o); AL [AV first; AV rv]; AV v] ;;
@@ -981,7 +970,7 @@ Section Sem.
                   else ret v);
         match rest with
         | Cnil => ret v'
-        | _ => do t <- truth v'; if t then reval_cmps c n on first rv rest else ret v'
+        | _ => do t <- truth v'; if t then reval_cmps c n on false first rv rest else ret v'
         end
       end.
 
@@ -1225,6 +1214,163 @@ Section Sem.
         else rexec_handlers k tryn e rest
       end.
 
+    (* ================================================================ refinement: instrumented code vs reference *)
+    Section Refinement.
+      (* the data semantics this theorem is about: truth tests are pure (total, effect-free).  The concrete
+         recorder objects of Concrete/CPrims.v log their __bool__ calls and are the refutation witness. *)
+      Variable tr : val -> bool.
+      Hypothesis truth_pure : forall v w0, p_truth v w0 = (POk (tr v), w0).
+
+      Lemma set_w_same (s : st) : set_w s (w s) = s.
+      Proof. destruct s; reflexivity. Qed.
+
+      Lemma truth_ret v : meq (truth v) (ret (tr v)).
+      Proof. intros s. unfold truth, prim, ret. rewrite truth_pure, set_w_same. reflexivity. Qed.
+
+      Notation ev_ := (eval call).
+      Notation evt_ := (eval_test call).
+
+      Lemma eval_unfold e : eval call e = eval_body call (eval call) (eval_test call) (eval_list call) (eval_cmps call) (eval_rcmps call) e.
+      Proof. destruct e; reflexivity. Qed.
+
+      (* in a boolean context an expression is worth the truth of its value (for pure truth tests) *)
+      Hypothesis tr_bool : forall b, tr (p_const (KBool b)) = b.
+
+      Ltac mnorm := repeat (setoid_rewrite bind_assoc || setoid_rewrite bind_ret_l).
+      Ltac mstep := apply bind_cong; [reflexivity|intros ?].
+
+      Lemma eval_test_unfold e :
+        eval_test call e =
+        match e with
+        | EBool _ BAnd a b => bind (eval_test call a) (fun t => if t then eval_test call b else ret false)
+        | EBool _ BOr a b => bind (eval_test call a) (fun t => if t then ret true else eval_test call b)
+        | EUn _ UNot a => bind (eval_test call a) (fun t => ret (negb t))
+        | EIfExp _ c a b => bind (eval_test call c) (fun t => if t then eval_test call a else eval_test call b)
+        | _ => bind (eval call e) (fun v => truth v)
+        end.
+      Proof. destruct e; try reflexivity; try (destruct o; reflexivity). Qed.
+
+      Lemma eval_test_value : forall e, meq (eval_test call e) (bind (eval call e) (fun v => ret (tr v))).
+      Proof.
+        assert (Hdef : forall e, jumpy e = false ->
+                  meq (eval_test call e) (bind (eval call e) (fun v => ret (tr v)))).
+        { intros e Hj. rewrite eval_test_unfold.
+          destruct e; try discriminate Hj; try (destruct o; try discriminate Hj);
+            (apply bind_cong; [reflexivity|intros v; apply truth_ret]). }
+        induction e; try (apply Hdef; reflexivity).
+        - (* EUn *) destruct o; try (apply Hdef; reflexivity).
+          rewrite eval_test_unfold, (eval_unfold (EUn n UNot e)). cbn [eval_body].
+          rewrite IHe. mnorm. mstep. rewrite tr_bool. reflexivity.
+        - (* EBool *) rewrite eval_test_unfold, (eval_unfold (EBool n o e1 e2)). cbn [eval_body]. destruct o.
+          + rewrite IHe1. mnorm. mstep. setoid_rewrite truth_ret. mnorm.
+            destruct (tr a) eqn:E; [apply IHe2|]. mnorm. rewrite E. reflexivity.
+          + rewrite IHe1. mnorm. mstep. setoid_rewrite truth_ret. mnorm.
+            destruct (tr a) eqn:E; simpl; [|apply IHe2]. mnorm. rewrite E. reflexivity.
+        - (* EIfExp *) rewrite eval_test_unfold, (eval_unfold (EIfExp n e1 e2 e3)). cbn [eval_body].
+          rewrite IHe1. mnorm. mstep.
+          destruct (tr a); [apply IHe2|apply IHe3].
+      Qed.
+      Lemma reval_unfold c e : reval c e = reval_body reval reval_tv reval_list reval_cmps c e.
+      Proof. destruct e; reflexivity. Qed.
+
+      Lemma reval_tv_unfold c e :
+        reval_tv c e =
+        match e with
+        | EBool n o a b =>
+          let on := cov_us (snake (boolop_cls o)) in
+          announce on false n ;;
+          do lt <- reval_tv c a;
+          let '(l, t) := lt in
+          if (match o with BAnd => t | BOr => negb t end) then
+            do rt_ <- reval_tv c b;
+            let '(r, tr) := rt_ in
+            if on then
+              ev "operation" n [AS (boolop_cls o); AL [AV l; AV r]; AV r] ;;
+              do hi <- ev "binary_operation" n [AS (boolop_cls o); AV l; AV r; AV r];
+              do lo <- ev (snake (boolop_cls o)) n [AV l; AV r; AV r];
+              match lo, hi with
+              | None, None => ret (r, tr)
+              | _, _ => let v := sel3 lo hi r in do tv <- truth v; ret (v, tv)
+              end
+            else ret (r, tr)
+          else
+            if on then
+              ev "operation" n [AS (boolop_cls o); AL [AV l; AThunk]; AV l] ;;
+              do hi <- ev "binary_operation" n [AS (boolop_cls o); AV l; AThunk; AV l];
+              do lo <- ev (snake (boolop_cls o)) n [AV l; AThunk; AV l];
+              match lo, hi with
+              | None, None => ret (l, t)
+              | _, _ => let v := sel3 lo hi l in do tv <- truth v; ret (v, tv)
+              end
+            else ret (l, t)
+        | EUn n UNot a => do vt <- reval_tv c a; rnot_events n (fst vt) (snd vt)
+        | EIfExp n t a b =>
+          let on := cov "enter_if" || cov "exit_if" in
+          if on then
+            do xt <- (if jumpy t then do x <- reval_tv c t; ret (fst x, Some (snd x))
+                      else do v <- reval_body reval reval_tv reval_list reval_cmps c t; ret (v, None));
+            announce true true n ;;
+            do hi <- ev "enter_control_flow" n [AV (fst xt)];
+            do lo <- ev "enter_if" n [AV (fst xt)];
+            do tt_ <- (match lo, hi, snd xt with None, None, Some b_ => ret b_ | _, _, _ => truth (sel3 lo hi (fst xt)) end);
+            do vt <- (if tt_ then reval_tv c a else reval_tv c b);
+            announce true true n ;;
+            ev "exit_control_flow" n [] ;; ev "exit_if" n [] ;;
+            ret vt
+          else do ct <- reval_tv c t; if snd ct then reval_tv c a else reval_tv c b
+        | _ => do v <- reval_body reval reval_tv reval_list reval_cmps c e; do t <- truth v; ret (v, t)
+        end.
+      Proof. destruct e; try reflexivity; try (destruct o; reflexivity). Qed.
+
+      Ltac msteps := repeat (apply bind_cong; [reflexivity|intros ?]).
+      (* keep the building blocks folded during setoid rewriting; [ufold] opens one explicitly *)
+      Opaque rnot_events announce ev notify RE CF truth prim prim_total lookup raise_builtin.
+
+      Ltac split_opts := repeat match goal with x : option earg |- _ => destruct x end.
+
+      Lemma rnot_events_value n v :
+        meq (rnot_events n v (tr v))
+            (bind (rnot_events n v (tr v)) (fun x => ret (fst x, tr (fst x)))).
+      Proof.
+        Transparent rnot_events announce. unfold rnot_events. destruct (cov_us (snake (unop_cls UNot))); unfold announce. Opaque rnot_events announce.
+        all: mnorm.
+        - msteps. split_opts; mnorm; cbn [fst]; try (setoid_rewrite truth_ret; mnorm; reflexivity);
+            rewrite tr_bool; reflexivity.
+        - cbn [fst]. rewrite tr_bool. reflexivity.
+      Qed.
+
+      Lemma reval_tv_value : forall e c, meq (reval_tv c e) (bind (reval c e) (fun v => ret (v, tr v))).
+      Proof.
+        assert (Hdef : forall e c, jumpy e = false -> meq (reval_tv c e) (bind (reval c e) (fun v => ret (v, tr v)))).
+        { intros e c Hj. rewrite reval_tv_unfold, reval_unfold.
+          destruct e; try discriminate Hj; try (destruct o; try discriminate Hj);
+            (apply bind_cong; [reflexivity|intros v; setoid_rewrite truth_ret; mnorm; reflexivity]). }
+        induction e; intros cx; try (apply Hdef; reflexivity).
+        - (* EUn *) destruct o; try (apply Hdef; reflexivity).
+          rewrite reval_tv_unfold, (reval_unfold cx (EUn n UNot e)). cbn [reval_body].
+          rewrite IHe. mnorm. mstep. cbn [fst snd].
+          rewrite rnot_events_value at 1. mnorm. reflexivity.
+        - (* EBool *) rewrite reval_tv_unfold, (reval_unfold cx (EBool n o e1 e2)). cbn [reval_body].
+          setoid_rewrite IHe1. setoid_rewrite truth_ret. mnorm. mstep. mstep. cbn beta iota.
+          destruct (match o with BAnd => tr a0 | BOr => negb (tr a0) end).
+          + setoid_rewrite IHe2. mnorm. mstep. cbn beta iota.
+            destruct (cov_us (snake (boolop_cls o))); mnorm; msteps; split_opts; mnorm; try reflexivity;
+              setoid_rewrite truth_ret; mnorm; reflexivity.
+          + destruct (cov_us (snake (boolop_cls o))); mnorm; msteps; split_opts; mnorm; try reflexivity;
+              setoid_rewrite truth_ret; mnorm; reflexivity.
+        - (* EIfExp *) rewrite reval_tv_unfold, (reval_unfold cx (EIfExp n e1 e2 e3)). cbn [reval_body].
+          rewrite <- (reval_unfold cx e1).
+          destruct (cov "enter_if" || cov "exit_if").
+          + mnorm. mstep. mstep. mstep. mstep. mstep.
+            destruct a3; [setoid_rewrite IHe2|setoid_rewrite IHe3]; mnorm; msteps; reflexivity.
+          + setoid_rewrite IHe1. mnorm. mstep. cbn [snd].
+            destruct (tr a); [apply IHe2|apply IHe3].
+      Qed.
+
+
+      Transparent rnot_events announce ev notify RE CF truth prim prim_total lookup raise_builtin.
+    End Refinement.
+
   End Ref.
 
   (* ---------------------------------------------------------------- functions, fuel, programs *)
@@ -1323,6 +1469,8 @@ Section Sem.
       else (if wrapped then end_execution else ret tt) ;; raise e
     | other => (if wrapped then end_execution else ret tt) ;; reraise other
     end.
+
+
 End Sem.
 
 Arguments POk {val A}. Arguments PRaise {val A}.
